@@ -7,10 +7,12 @@ from vlib.runner import PropCheck, Case
 
 class PROP(PropCheck):
     id = "C09"
-    theorems = ["C09_parse_wf", "C09_misplaced_rejected", "C09_rejection_has_diagnostic", "C09_accepts_example"]
+    theorems = ["C09_parse_wf", "C09_misplaced_rejected", "C09_rejection_has_diagnostic", "C09_accepts_example",
+                "C09_documented_grammar_accepted", "C09_accepted_tree_is_program", "C09_accepted_is_balanced", "C09_unbalanced_rejected"]
+    audit_modules = ["C09", "C09b", "C09c"]
     coq_imports = ["Token", "LexImpl", "Ast", "ParseImpl", "Obs"]
     model_targets = ["theories/Obs.vo"]
-    prop_targets = ["theories/Props/C09.vo"]
+    prop_targets = ["theories/Props/C09.vo", "theories/Props/C09b.vo", "theories/Props/C09c.vo"]
     harness_mode = "parse"
     trusted_base = [
         "Coq 8.16.1 kernel and bytecode VM (vm_compute evaluates scanner + parser models on every case)",
@@ -40,7 +42,7 @@ class PROP(PropCheck):
 
     def cases(self, rng, tier, scale=1):
         out = []
-        n = (1200 if tier == "quick" else 30000) * scale
+        n = (1200 if tier == "quick" else 20000) * scale
         maxd = 3 if tier == "quick" else 5
         for i in range(n):
             g = P.Gen(rng, maxd=rng.randint(1, maxd))
@@ -63,7 +65,7 @@ class PROP(PropCheck):
     def expected(self, case, impl):
         if impl is None or impl.startswith(("ABORT", "PANIC")):
             return "X " + str(impl)[:100]
-        return impl.replace(" RENDERPANIC", "")
+        return impl.replace(" RENDERPANIC", "").replace(" BADSPAN", "")
 
     def oracle(self, case, impl):
         if impl is None or impl.startswith("ABORT"):
